@@ -126,6 +126,11 @@ def verb_cases(pre, s: CM.S):
     else:
         out.append(("select(c0)", "select", {}, True, lambda P, T: T[0] >> pdt.select(K(c0))))
     out.append(("ungroup", "ungroup", {}, True, lambda P, T: T[0] >> pdt.ungroup()))
+    if not s.grouped_now and not s.c1_hidden:
+        # the table in state s as the left / right operand of a join with a plain second table (P[1])
+        for how in ("inner", "left", "full"):
+            out.append((f"join({how},as_left)", "join", dict(side="left", how=how), False, lambda P, T, how=how: T[0] >> pdt.join(T[1], K(e) == col_of(P[1], 0), how)))
+            out.append((f"join({how},as_right)", "join", dict(side="right", how=how), False, lambda P, T, how=how: T[1] >> pdt.join(T[0], col_of(P[1], 0) == K(e), how)))
     return [(a, b, c_, d, bind(f)) for a, b, c_, d, f in out]
 
 
@@ -188,7 +193,8 @@ def make_s3(s: CM.S, label, verb, fkw, frag, fn):
                 raise AssertionError(f"S9: the first application raised {type(e1).__name__}, the second was accepted")
             return second
 
-        paths, wit = TS.explore_step([pre], twice, "sql", sql_state_kw=kw)
+        pres = [pre] + ([TS.Pre(TS.Skeleton(("vis",)), "r", backend_cls=H.sqlite_backend.SqliteImpl)] if verb == "join" else [])
+        paths, wit = TS.explore_step(pres, twice, "sql", sql_state_kw=kw)
         vc = VC(f"state {s}: {label}: accepted => fits ({'fits' if ok else 'does NOT fit'}: {why}); J6 preserved" + ("; S5: never refused" if frag and in_fragment_state(s) else ""))
         for p in paths:
             vc.paths += 1
@@ -202,7 +208,7 @@ def make_s3(s: CM.S, label, verb, fkw, frag, fn):
                         vc.require(p.pc, z3.BoolVal(False), f"S5: a verb of the never-needs-a-subquery fragment was refused: {str(e).splitlines()[1] if len(str(e).splitlines()) > 1 else e}", wit)
                     else:
                         vc.queries += 1
-                elif verb == "rename" and isinstance(e, ValueError):
+                elif verb in ("rename", "join") and isinstance(e, ValueError):  # name collisions of the symbolic names (C06/C14)
                     vc.queries += 1
                 else:
                     vc.require(p.pc, z3.BoolVal(False), f"the verb was rejected for another reason than a subquery: {type(e).__name__}: {str(e)[:160]}", wit)
@@ -324,10 +330,11 @@ def make_s4(s: CM.S, label, verb, fkw, fn):
 
         def fn2(P, T):
             aliased = T[0] >> pdt.alias("sub")
-            return fn(P, [aliased])
+            return fn(P, [aliased] + list(T[1:]))
 
         kw = {"t": sql_kw(pre, s)}
-        paths, wit = TS.explore_step([pre], fn2, "sql", sql_state_kw=kw)
+        pres = [pre] + ([TS.Pre(TS.Skeleton(("vis",)), "r", backend_cls=H.sqlite_backend.SqliteImpl)] if verb == "join" else [])
+        paths, wit = TS.explore_step(pres, fn2, "sql", sql_state_kw=kw)
         vc = VC(f"state {s}: alias() >> {label} is accepted (never SubqueryError) and compiles through a subquery without internal error")
         for p in paths:
             vc.paths += 1
@@ -340,6 +347,8 @@ def make_s4(s: CM.S, label, verb, fkw, fn):
             _, new, state, aux, tables, _pr = p.value
             names = [c.name for c in aux.selected_columns]
             vc.require(p.pc, TS.seq_eq(names, list(new._cache.name_to_uuid.keys())), "S7: the outer SELECT does not list columns() in order", wit)
+            for lab, cond in j6(new._cache, state):
+                vc.require(p.pc, cond, "after the subquery: " + lab, wit)
         return vc.outcome()
 
     return run
@@ -360,6 +369,7 @@ class RealPre:
             df.write_database("t", eng)
             t = pdt.Table("t", pdt.SqlAlchemy(eng))
         base = t
+        self.base = t
         if s.filtered and s.agg != "grouped":
             t = t >> pdt.filter(base.a > 1)
         if s.agg == "grouped":
@@ -403,6 +413,29 @@ class RealPre:
         return k
 
 
+class RealRight:
+    """a plain second table on the same engine (right / left operand of the join cases)"""
+
+    def __init__(self, rp):
+        import polars as pl
+
+        df = pl.DataFrame({"kk": [1, 2, 2, 5, 9, None], "w": [100, 200, 300, 400, 500, 600]})
+        be = rp.base._cache.backend
+        if be.backend_name == "polars":
+            t = pdt.Table(df, name="r")
+        else:
+            eng = pdt._internal.backend.sql.get_engine(rp.base._ast)
+            df.write_database("r", eng)
+            t = pdt.Table("r", pdt.SqlAlchemy(eng))
+        self.tbl = t
+        self.cols = [t.kk, t.w]
+        self.phys = ["kk", "w"]
+        self.uuids = [c._uuid for c in self.cols]
+        self.dtypes = [c._dtype for c in self.cols]
+        self.ftypes = [c._ftype for c in self.cols]
+        self.node = t._ast
+
+
 def make_replayer(s: CM.S, label, fn, with_alias=False):
     def replay(model):
         import warnings
@@ -413,7 +446,8 @@ def make_replayer(s: CM.S, label, fn, with_alias=False):
                 with warnings.catch_warnings():
                     warnings.simplefilter("ignore")
                     rp = RealPre(s, be, with_alias)
-                    res_tbl = fn([rp], [rp.tbl])
+                    rp2 = RealRight(rp)
+                    res_tbl = fn([rp, rp2], [rp.tbl, rp2.tbl])
                     if s.c1_hidden and not label.startswith(("summarize", "select", "group_by")):
                         res_tbl = res_tbl >> pdt.mutate(zz=rp.cols[1])  # re-expose the hidden window column (legal: referenced through the earlier table)
                     if label == "slice_head(0)":
@@ -432,10 +466,11 @@ def make_replayer(s: CM.S, label, fn, with_alias=False):
                 with warnings.catch_warnings():
                     warnings.simplefilter("ignore")
                     rp = RealPre(s, "sqlite", with_alias)
+                    rp2 = RealRight(rp)
                     v = []
                     for _ in range(2):
                         try:
-                            fn([rp], [rp.tbl])
+                            fn([rp, rp2], [rp.tbl, rp2.tbl])
                             v.append("accepted")
                         except Exception as e:  # noqa: BLE001
                             v.append(type(e).__name__)
@@ -447,6 +482,32 @@ def make_replayer(s: CM.S, label, fn, with_alias=False):
         return {"reproduced": bool(diff), "text": text}
 
     return replay
+
+
+def j6_base_run(carve):
+    """base case of the coupling J6: a source table starts with an empty clause state in Cache and in the SQL Query"""
+    import polars as pl
+    import sqlalchemy as sqa
+
+    from .c13 import _enum_outcome
+
+    n, bad = 0, []
+    df = pl.DataFrame({"a": [1, 2], "b": [3.5, None]})
+    eng = sqa.create_engine("sqlite://")
+    df.write_database("t", eng)
+    for be, t in (("polars", pdt.Table(df, name="t")), ("sqlite", pdt.Table("t", pdt.SqlAlchemy(eng)))):
+        for via, c in (("Table()", t._cache), ("Cache.from_ast", TS.Cache.from_ast(t._ast))):
+            n += 1
+            if c.limit != 0 or c.group_by or c.is_filtered or c.partition_by:
+                bad.append(f"[{be}] {via}: a source table starts with limit={c.limit}, group_by={c.group_by}, is_filtered={c.is_filtered}, partition_by={c.partition_by}")
+            if any(col.ftype() != Ftype.ELEMENT_WISE for col in c.cols.values()):
+                bad.append(f"[{be}] {via}: a source column is not element-wise")
+        if be == "sqlite":
+            n += 1
+            _, q, _ = H.sqlite_backend.SqliteImpl.compile_ast(t._ast, {})
+            if q.where or q.having or q.group_by or q.order_by or q.limit is not None or q.partition_by:
+                bad.append(f"[sqlite] the query of a source table is not empty: {q}")
+    return _enum_outcome("a source table starts with an empty clause state (Cache and SQL Query): base case of J6", n, bad)
 
 
 def obligations(tier):
@@ -466,6 +527,7 @@ def obligations(tier):
             if not ok and (tier == "thorough" or (not s.filtered and not s.ordered)):
                 obs.append(Obligation(f"C08/S4/{tag}/{label}", "S4+S7", f"alias() >> {label} in state {s}", make_s4(s, label, verb, fkw, fn), functions=fns, bounded="same state enumeration", replayer=make_replayer(s, label, fn, with_alias=True),
                                       carveouts={"whole": ""}))
+    obs.append(Obligation("C08/J6/base", "J6", "base case: empty clause state of a source table", j6_base_run, functions=[fi(TS.Cache.from_ast), fi(H.sql_backend.SqlImpl.compile_ast)], bounded="one source table per backend (the constructor takes no other input that influences the clause state)"))
     obs.append(Obligation("C08/S6/sql", "S6", "LIMIT/OFFSET composition of consecutive slice_head (symbolic n, offsets)", make_s6("sql"), functions=[fi(H.sql_backend.SqlImpl.compile_ast)], carveouts={"offset_le_limit": "second offset within the first slice"}, replayer=replay_s6))
     obs.append(Obligation("C08/S6/polars", "S6", "Polars applies slice(offset, n) to the current frame", make_s6("polars"), functions=[fi(H.polars_backend.compile_ast)]))
     return obs
